@@ -2,6 +2,8 @@ import EupsModel.Lemmas.RecordReloc
 import EupsModel.Lemmas.RecordText
 import EupsModel.Lemmas.RecordEndToEnd
 import EupsModel.Lemmas.RecordDir
+import EupsModel.Lemmas.RecordQual
+import EupsModel.Lemmas.RecordMacro
 /-! C16 — database records round-trip and stacks are relocatable.  Property theorems only.
 Model and the specification-side definitions used in the statements (`DirPl`, `TabPl`, `DirPl.at`, `TabPl.at`,
 `declaredProd`, `canonInfo`, `PlaceOK`, `DeclEx`, `ReadEx`, `readBack`): `Model/Record.lean`; helper lemmas:
@@ -180,6 +182,106 @@ theorem C16_qualifier_clash_witness :
         .ok { name := some [97], version := some [49], flavors := [([76, 58, 98], clashInfo 50)] } := by
   refine ⟨_, rfl, ?_⟩
   rfl
+
+/-! ### Inside the alphabet after all: qualified flavors in the right order
+
+`QualKey fq`: `fq` is a clean unqualified name, or `base:qual` with `base` such a name and `qual` clean and not
+starting with a second `:`.  `QualOrder keys`: the keys are pairwise distinct and **no unqualified flavor precedes a
+qualified flavor of the same base** (`a ≠ baseOf b` for every `a` before a qualified `b`).  `GoodVRecQ` / `GoodCRecQ` are
+`GoodVRec` / `GoodCRec` with these two in place of "no qualifier" and "distinct".  `C16_qualifier_clash_witness` above
+shows that the order hypothesis cannot be dropped, `C16_double_colon_witness` below that the form of the key cannot. -/
+
+/-- **Version files round-trip, qualified flavors admitted** (string level). -/
+theorem C16_text_roundtrip_version_qual (r : VRec) (h : GoodVRecQ r) (nm vs : Option Str)
+    (hnm : nm = none ∨ nm = r.name) (hvs : vs = none ∨ vs = r.version) :
+    ∃ text, printVersion r = .ok (some text) ∧ parseVersion nm vs text = .ok r :=
+  text_roundtrip_version_qual r h nm vs hnm hvs
+
+/-- **Chain files round-trip, qualified flavors admitted** (string level). -/
+theorem C16_text_roundtrip_chain_qual (r : CRec) (h : GoodCRecQ r) (nm tg : Option Str)
+    (hnm : nm = none ∨ nm = r.name) (htg : tg = none ∨ tg = r.tag) :
+    ∃ text, printChain r = .ok (some text) ∧ parseChain nm tg text = .ok r :=
+  text_roundtrip_chain_qual r h nm tg hnm htg
+
+/-- The earlier theorems are the special case without qualifiers. -/
+example (r : VRec) (h : GoodVRec r) : GoodVRecQ r := goodVRecQ_of_good r h
+example (r : CRec) (h : GoodCRec r) : GoodCRecQ r := goodCRecQ_of_good r h
+
+/-- Non-vacuity: the clash record with its two blocks swapped (`L:b` first, then `L`) satisfies the order hypothesis … -/
+def swappedRec : VRec :=
+  { name := some [97], version := some [49], flavors := [([76, 58, 98], clashInfo 50), ([76], clashInfo 49)] }
+example : QualOrder (swappedRec.flavors.map (·.1)) := by decide
+example : ¬ QualOrder (clashRec.flavors.map (·.1)) := by decide
+/-- … and reads back. -/
+example : ∃ text, printVersion swappedRec = .ok (some text) ∧ parseVersion none none text = .ok swappedRec :=
+  ⟨_, rfl, rfl⟩
+
+def dcolonRec : VRec :=
+  { name := some [97], version := some [49], flavors := [([76, 58, 58, 98], clashInfo 49)] }
+
+/-- The form of a qualified key matters too: the writer's pattern `^([^:]+)(:?:(.*)$)?` swallows a second colon, so
+the flavor `L::b` is written as `FLAVOR = L`, `QUALIFIERS = "b"` and reads back as `L:b`. -/
+theorem C16_double_colon_witness :
+    ∃ text, printVersion dcolonRec = .ok (some text) ∧
+      parseVersion none none text =
+        .ok { name := some [97], version := some [49], flavors := [([76, 58, 98], clashInfo 49)] } :=
+  ⟨_, rfl, rfl⟩
+
+/-- The same clash in a chain file: `L` then `L:b` reads back as the single block `L:b` (the `FLAVOR = L` line of the
+second block resets the first). -/
+def clashChain : CRec :=
+  { name := some [97], tag := some [99], flavors :=
+      [([76], { version := Fld.val [49], declarer := Fld.val [114] }),
+       ([76, 58, 98], { version := Fld.val [50], declarer := Fld.val [114] })] }
+theorem C16_qualifier_clash_chain_witness :
+    ∃ text, printChain clashChain = .ok (some text) ∧
+      parseChain none none text =
+        .ok { name := some [97], tag := some [99],
+              flavors := [([76, 58, 98], { version := Fld.val [50], declarer := Fld.val [114] })] } :=
+  ⟨_, rfl, rfl⟩
+
+/-! ## Hand-written records that use macros
+
+A person (or an older eups / UPS) may write `PROD_DIR`, `UPS_DIR` and `TABLE_FILE` with the macros `$PROD_ROOT` (the
+stack), `$UPS_DB` (its database directory), `$PROD_DIR`, `$UPS_DIR` (the product's resolved directories) and `$FLAVOR`.
+`MDir`, `MUps`, `MTab` (`Lemmas/RecordMacro.lean`) are the forms an entry can take — relative, one of the macros followed
+by segments, absolute, `none`, missing —, `toRec` is the text in the record, and `denote R f …` is **what the entry
+means** for a reader whose stack is at `R` and whose flavor is `f`: everything relative or macro-headed lies below `R`
+(resp. below the product / ups directory), `$FLAVOR` segments read `f`, absolute entries stay where they are, and a
+relative table-file name is looked for in the ups directory (default `<dir>/ups`), then in the stack.  `MacroWF` lists the
+meaningful combinations: segments are `$`-free or `$FLAVOR` (absolute paths and relative table names `$`-free); a relative
+`UPS_DIR` needs a product directory; `$PROD_DIR` needs a `PROD_DIR` recorded relative to the stack (relative, `$PROD_ROOT/…`
+or `$UPS_DB/…`), `$UPS_DIR` a `UPS_DIR` recorded relatively. -/
+
+/-- **Macro records are relocatable**: for every well-formed combination of hand-written entries, a reader whose stack
+is at `R` — any `R` — reports the directory and the table file the macros denote relative to `R`. -/
+theorem C16_macro_records (ex : Path → Bool) (R : List Str) (name version f : Str) (md : MDir) (mu : MUps) (mt : MTab)
+    (hR : SegsOK R) (hf : SegOK f) (hwf : MacroWF md mu mt) :
+    (resolveInfo ex name version f (absP (R ++ [sUpsDb]))
+        { productDir := some md.toRec, tableFile := some mt.toRec, upsDir := some mu.toRec }).map
+        (fun p => (p.dir, p.table))
+      = .ok (md.denote R f, mt.denote ex R f (md.denote R f) (mu.denote R f (md.denote R f))) :=
+  resolve_macro_spec ex R name version f md mu mt hR hf hwf
+
+/-- Non-vacuity: `PROD_DIR = $PROD_ROOT/pkgs/$FLAVOR/hp`, `UPS_DIR = $PROD_DIR/ups`, `TABLE_FILE = $UPS_DIR/hp.table`
+is well-formed, and a reader of flavor `L` at `/m/n` finds `/m/n/pkgs/L/hp` and `/m/n/pkgs/L/hp/ups/hp.table`. -/
+example : MacroWF (.prodRoot [[112], mFLAVOR, [104]]) (.prodDir [sUps]) (.upsDir [[104, 46, 116]]) :=
+  ⟨by simp only [MDir.ok]; decide, by simp only [MUps.ok]; decide, by simp only [MTab.ok]; decide, by simp,
+   by simp [MDir.isRel], by simp [MUps.isRel], by simp⟩
+example : (resolveInfo (fun _ => false) [104] [49] [76] (absP ([[109], [110]] ++ [sUpsDb]))
+      { productDir := some (MDir.prodRoot [[112], mFLAVOR, [104]]).toRec, tableFile := some (MTab.upsDir [[104, 46, 116]]).toRec,
+        upsDir := some (MUps.prodDir [sUps]).toRec }).map (fun p => (p.dir, p.table))
+    = .ok (.path ⟨true, [[109], [110], [112], [76], [104]]⟩,
+           .path ⟨true, [[109], [110], [112], [76], [104], sUps, [104, 46, 116]]⟩) := by rfl
+
+/-- `MacroWF` is needed: with an *absolute* `PROD_DIR` the reader never defines `$PROD_DIR`, and
+`TABLE_FILE = $PROD_DIR/ups/hp.table` is reported unresolved. -/
+theorem C16_macro_proddir_abs_witness :
+    (resolveInfo (fun _ => true) [104] [49] [76] (absP ([[109]] ++ [sUpsDb]))
+      { productDir := some (MDir.abs [[111], [104]]).toRec, tableFile := some (MTab.prodDir [sUps, [104, 46, 116]]).toRec,
+        upsDir := some (MUps.none).toRec }).map (fun p => (p.dir, p.table))
+    = .ok (.path ⟨true, [[111], [104]]⟩, .path ⟨false, [mPROD_DIR, sUps, [104, 46, 116]]⟩) := by rfl
+
 /-! ## End to end -/
 
 /-- **Relocation through the text of the record**: `Database.declare` into an empty version file with the stack at
